@@ -635,10 +635,13 @@ def bin_by_phase(ip, x, nbins=24, weights=None, variance_metric='variance',
                 (x[inds, ...] - np.repeat(avg[None, ii - 1, ...], np.sum(inds), axis=0))**2, axis=0)
         else:
             if inds.sum() > 0:
-                avg[ii - 1, ...] = np.average(x[inds, ...], axis=0,
-                                              weights=weights[inds].dot(np.ones((1, x.shape[1]))))
+                if x.ndim == 1:
+                    w = weights[inds, 0]
+                else:
+                    w = weights[inds].dot(np.ones((1, x.shape[1])))
+                avg[ii - 1, ...] = np.average(x[inds, ...], axis=0, weights=w)
                 v = np.average((x[inds, ...] - np.repeat(avg[None, ii - 1, ...], np.sum(inds), axis=0)**2),
-                               weights=weights[inds].dot(np.ones((1, x.shape[1]))), axis=0)
+                               weights=w, axis=0)
             else:
                 v = np.nan
 
